@@ -199,3 +199,44 @@ func VerifH_c19_multi_db() {
 		vAssert("database-size-restored", vRespEqAny(size[i], vCmd(c2, "DBSIZE")))
 	}
 }
+
+// VerifH_c19_multi_db_crash: the process dies after an arbitrary number of
+// file-system effects of the save of a two-database store; after the restart
+// (which walks the directory and finds whatever the crash left, including a
+// temporary file) each database holds either what it held at the previous
+// save or what it held at the interrupted one - never less.
+func VerifH_c19_multi_db_crash() {
+	VerifSetup()
+	vSetNow(vT0, 0)
+	vFsReset()
+	base := vFsPath("data")
+	dss := newDataStoreSet(vLane, base, nil)
+	c := vNewClientOn(newCmdDispatcher(6379, "127.0.0.1", vCmds, vInfo, dss))
+	vCmd(c, "SET", "k", "zero-old")
+	vCmd(c, "SELECT", "3")
+	vCmd(c, "SET", "k", "three-old")
+	vAssert("first-save-ok", dss.save(vLane) == nil)
+	vCmd(c, "SET", "k", "three-new")
+	vCmd(c, "RPUSH", "l", "a")
+	vCmd(c, "SELECT", "0")
+	vCmd(c, "SET", "k", "zero-new")
+	cut := vChoice("effects-before-crash", 14)
+	vFsCrashAfter(cut)
+	dss.save(vLane)
+	total := vFsEffects()
+	vFsCrashAfter(-1)
+	dss2 := newDataStoreSet(vLane, base, nil)
+	c2 := vNewClientOn(newCmdDispatcher(6379, "127.0.0.1", vCmds, vInfo, dss2))
+	g0 := vCmd(c2, "GET", "k")
+	vAssert("database-0-old-or-new", vIsBulk(g0, "zero-old") || vIsBulk(g0, "zero-new"))
+	vCmd(c2, "SELECT", "3")
+	g3 := vCmd(c2, "GET", "k")
+	vAssert("database-3-old-or-new", vIsBulk(g3, "three-old") || vIsBulk(g3, "three-new"))
+	// a database is never a mixture: the list of the new snapshot comes with the new string
+	hasList := vIsInt(vCmd(c2, "EXISTS", "l"), 1)
+	vAssert("database-3-not-mixed", hasList == vIsBulk(g3, "three-new"))
+	if cut >= total {
+		vAssert("completed-save-is-the-new-state", vIsBulk(g0, "zero-new") && vIsBulk(g3, "three-new"))
+	}
+	vReach("crash-between-the-two-databases", cut > 0 && cut < total)
+}
